@@ -25,7 +25,6 @@ TRUSTED = []
 CHILD = r'''
 import sys, warnings
 warnings.simplefilter("ignore")
-sys.path.insert(0, "/repo")
 import numpy as np, cloudpickle, cubed, cubed.array_api as xp
 k, kind, workdir = int(sys.argv[1]), sys.argv[2], sys.argv[3]
 spec = cubed.Spec(work_dir=workdir, allowed_mem="200MB")
@@ -45,7 +44,6 @@ EXPECT = {"neg": lambda a: -a, "chain": lambda a: -a * 3 + 1, "sum": lambda a: (
 RECEIVER = r"""
 import sys, json, warnings, base64
 warnings.simplefilter("ignore")
-sys.path.insert(0, "/repo")
 import numpy as np, cloudpickle, cubed, cubed.array_api as xp
 from cubed.core.plan import arrays_to_dag
 k_local, workdir = int(sys.argv[1]), sys.argv[2]
@@ -116,7 +114,7 @@ def run(ctx):
     open(child_py, "w").write(CHILD)
     open(recv_py, "w").write(RECEIVER)
     spec = cubed.Spec(work_dir=os.path.join(tmp, "w"), allowed_mem="200MB")
-    env = {**os.environ, "PYTHONPATH": "/repo"}
+    env = {**os.environ, "PYTHONPATH": os.environ.get("VERIF_REPO", "/repo")}
     try:
         for rep in range(ctx.n(16, 240)):
             kind = ctx.rng.choice(list(EXPECT))
